@@ -178,7 +178,7 @@ prop("C19", "format-diff turns a patch into exactly the lines it added", "explor
      assumptions=["line numbers <= 2^31 (observation O4: larger ones panic in parse::<u32>().unwrap(); outside C19's quantifier)", "paths without blanks (as in the quantifier)"])
 
 prop("C09", "Released style editions are frozen", "other",
-     ["U20"],
+     ["U20", {"unit": "U13", "only": r"2015|identical|style edition"}],
      [{"clause": "style editions 2015, 2018 and 2021 produce identical text — non-interference: every comparison of the style edition in formatting code is constant on the three (frame scan over all of src/), and the default table groups them in one arm", "status": "bounded", "by": "U20 frame scan (mechanical, whole src/) — a token-level frame argument, not a deductive proof"},
       {"clause": "the order those comparisons rely on is the total order 2015 < 2018 < 2021 < 2024 < 2027 (real PartialOrd impl over the real rustc Edition)", "status": "bounded", "by": "U20 native (finite domain enumerated completely: 25 pairs x operators)"},
       {"clause": "the import comparator gives identical results for 2015/2018/2021", "status": "bounded", "by": "U13 (see C11)"},
@@ -233,17 +233,36 @@ prop("C03", "Comments are never silently dropped", "other",
 IDEM = r"idempot|again|twice|second pass|rewriting the result"
 prop("C02", "Formatting is idempotent", "other",
      [{"unit": "U08", "only": IDEM}, {"unit": "U02", "only": IDEM}, {"unit": "U09", "only": IDEM}, {"unit": "U10", "only": IDEM}, {"unit": "U18", "only": IDEM},
-      {"unit": "U04", "only": r"^format_lines: trailing newline"}],
+      {"unit": "U04", "only": r"^format_lines: trailing newline"}, {"unit": "U14", "only": IDEM + r"|second time"}],
      [{"clause": "newline-style conversion is a fixed point (Unix and Windows converters idempotent)", "status": "bounded", "by": "U08"},
       {"clause": "the blank-line clamp is a fixed point: a second push with nothing new pushes nothing", "status": "bounded", "by": "U09"},
       {"clause": "trailing-newline truncation leaves exactly one terminator (a second pass finds nothing to truncate)", "status": "bounded", "by": "U04"},
       {"clause": "remove_trailing_white_spaces and trim_left_preserve_layout are idempotent", "status": "bounded", "by": "U10"},
       {"clause": "literal re-spelling is idempotent (rewriting the rewritten literal changes nothing)", "status": "bounded", "by": "U18"},
       {"clause": "file_lines normalisation is idempotent", "status": "bounded", "by": "U02"},
-      {"clause": "import normalisation / regrouping / sorting applied twice equals once", "status": "bounded", "by": "U13/U14 (when integrated)"},
+      {"clause": "import normalisation is idempotent; regrouping (normalize, regroup by granularity, sort) a second time changes nothing", "status": "bounded", "by": "U14 — KNOWN FINDINGS K1, K2, K4, K5, K6, K7 (imports_granularity)"},
       {"clause": "whole-program idempotence: format(format(x)) == format(x) for every source (layout thresholds inside the rewriters agreeing with themselves on their own output)", "status": "not_decided", "by": "- (no contract on one function expresses it; it is a statement about the composition of all rewriters)"}],
      "Whole-program idempotence is not decided by this technique. What is decided are the fixed-point clauses of the mechanisms the anchors name as being 'themselves fixed points', each as the postcondition f(f(x)) == f(x) on the real function, bounded-exhaustively.",
-     statement_clauses={"U08": "a second run rewrites no file", "U09": "a second run rewrites no file", "U10": "a second run rewrites no file", "U18": "a second run rewrites no file", "U02": "a second run rewrites no file", "U04": "a second run rewrites no file"})
+     statement_clauses={"U08": "a second run rewrites no file", "U09": "a second run rewrites no file", "U10": "a second run rewrites no file", "U18": "a second run rewrites no file", "U02": "a second run rewrites no file", "U04": "a second run rewrites no file", "U14": "a second run rewrites no file"})
+
+prop("C10", "Import rewriting preserves what is imported", "exploration",
+     ["U14"],
+     [{"clause": "under every imports_granularity the set of imported (attributes, visibility, path, alias) denoted by a run of use declarations is unchanged by normalize / flatten / merge / nest_trailing_self / normalize_use_trees_with_granularity (never adds, loses or renames)", "status": "bounded", "by": "U14 (grammar-generated lists of <= 2/3 trees x 5 granularities against an independent leaves() expansion) — KNOWN FINDINGS K1, K2, K5, K6"},
+      {"clause": "never merges across differing visibility, attributes or attached comments; a tree with attributes or a comment is returned as is", "status": "bounded", "by": "U14"},
+      {"clause": "group_imports is a partition that keeps every tree once, in relative order", "status": "bounded", "by": "U14 (real reorder::group_imports)"},
+      {"clause": "UseTree::from_ast (needs rustc_ast), 'never moves an import across a non-import item' (visitor over spans), rewriting to text", "status": "not_decided", "by": "-"}],
+     "The real imports.rs merge machinery is extracted item by item (no shim was needed: visibility, attributes and spans are the real rustc types) and driven with UseTree values built by the file's own test parser. "
+     "HashMap-free but String/Vec/recursion-heavy code outside Verus and Kani: bounded exploration, exhaustive within the stated grammar bound.",
+     statement_clauses={"U14": "merging, splitting, flattening, nesting `self`, dropping empty lists and removing duplicates never adds, loses or renames an import ... and never merges across differing visibility, attributes or attached comments"},
+     assumptions=["UseTree values are built with the file's own parse_use_tree test helper plus direct field assignment (visibility, attrs, comment)"])
+
+prop("C11", "Reordering is a deterministic, order-insensitive permutation", "exploration",
+     ["U12", "U13"],
+     [{"clause": "version_sort is a consistent total order on identifiers (reflexive, antisymmetric, transitive; Equal only for identical strings; agrees with the documented rules), incl. digit runs beyond usize", "status": "bounded", "by": "U12 (all pairs of identifiers <= 4/5 over {a,B,_,0,1,9}, all triples <= 2/3, permutations of 4-subsets)"},
+      {"clause": "Ord for UseSegment / UseTree is a consistent total preorder for every style edition; imports that differ only in their alias rank equal and keep their relative order; sorting any permutation gives the same sequence", "status": "bounded", "by": "U13 (105 trees x 5 style editions: all pairs, all triples, all orderings of 3/4-subsets)"},
+      {"clause": "mod / extern crate ordering (compare_items over ast::Item), group boundaries (blank lines, #[macro_use], skip), attached attributes and comments travel with their element", "status": "not_decided", "by": "- (span-based, needs rustc_ast items)"}],
+     "Comparator laws are statements about all pairs/triples/permutations; both comparators are string code outside Verus/Kani (Kani does not terminate on 2-byte symbolic strings, measured), so they are enumerated on the natively compiled real text over a stated universe.",
+     statement_clauses={"U12": "the comparison used is a consistent total preorder ... the version-sort of 2024", "U13": "every permutation of a group formats to the same text (imports that differ only in their alias are ranked equal and keep their relative order)"})
 
 PROPS["C13"]["statement_clauses"]["U17"] = "except modules or files that are skipped, matched by `ignore`, marked @generated when generated files are excluded, or any child when skip_children is set or the input is standard input"
 PROPS["C20"]["statement_clauses"]["U25"] = "When rustfmt rewrites a file with --backup ..."
@@ -275,6 +294,10 @@ MANIFEST_TEXT = {
             "note": "frame scan is lexical (complete for what it states); assumes the style edition is only observed through the scanned forms", "technique": "mechanical frame scan (non-interference) + complete enumeration of the real StyleEdition order"},
     "C13": {"text": "Only the consumer side: given the list produced by module resolution, the real format_project formats exactly the non-excluded entries, each once, in order (complete enumeration over event-recording shims, <= 2 files). The reachability rules (ModResolver) — the larger half of the property — are NOT decided.",
             "note": "ModResolver, ParseSess, Parser are shims; exclusion predicate is a harness-chosen boolean here (its real table: U17)", "technique": T_B},
+    "C10": {"text": "Bounded-exhaustive contract check of the real import merge/flatten/normalize/group functions against an independent expansion of a use-tree into its (attributes, visibility, path, alias) leaves, for grammar-generated lists of <= 2/3 trees x all 5 granularities. Several classes of genuine violations (imports_granularity) are recorded as known findings; one was repaired.",
+            "note": "UseTree::from_ast and the rewrite to text are not extracted; trees are built with the file's own test parser; real rustc visibility/attribute types", "technique": T_B},
+    "C11": {"text": "Comparator laws (reflexive, antisymmetric, transitive, Equal only for identical elements, permutation-invariance of sort, alias rule, 2015=2018=2021) enumerated over all pairs / triples / permutations of a stated universe on the real version_sort and the real Ord impls of UseSegment/UseTree. Group boundaries and mod/extern-crate ordering are not decided.",
+            "note": "string comparators are outside Verus/Kani (measured); universe sizes stated in the evidence", "technique": T_B},
     "C12": {"text": "The property's own exhaustive quantifier (all pairs of line sequences <= 5 over {\"\",a,b}, final newline y/n, context 0..3) is enumerated completely on the real diff/report code with independent oracles (apply-chunks, re-parse, line-number consistency, XML/JSON well-formedness). Bounded stand-in: no deductive back end reaches this String/iterator code.",
             "note": "diff crate and serde_json trusted; Config shim (color, verbose); two recorded known findings for the checkstyle report", "technique": T_B},
     "C15": {"text": "Only the inter-file session state is within reach: ReportedErrors::add is a field-wise OR, exit status of a multi-file run is the max of the single statuses, override_config restores the config — all proved by Kani over fully symbolic inputs (loop-free, complete). Determinism of the formatter proper is not decided.",
